@@ -146,6 +146,7 @@ func (e *env) matrixCase(fs *fileSchema, kind string, pos *position, goRoute boo
 	c.Cover("matrix_positions", pos.name)
 	c.Cover("matrix_routes", route)
 	c.Cover("matrix_rows", fs.syntax+"/"+kind+"/"+pos.name+"/"+route)
+	c.Note("matrix row %s %s %s %s over the whole value pool", fs.syntax, kind, pos.name, route)
 	for vi := range e.pool {
 		e.matrixCell(fs, kind, pos, goRoute, route, &e.pool[vi])
 	}
@@ -175,7 +176,6 @@ func (e *env) matrixCell(fs *fileSchema, kind string, pos *position, goRoute boo
 	fname := string(fd.Name())
 	allDesc := sproto.MessageDescriptor{Desc: fs.all}
 	cellID := fmt.Sprintf("%s %s %s %s %s", fs.syntax, kind, pos.name, route, pv.label)
-	c.Note("matrix cell %s", cellID)
 
 	// ---- build the operand structures shared by model and operation
 	var opArg starlark.Value = v // what is assigned to the field / passed as kwarg
@@ -380,7 +380,7 @@ func (e *env) matrixCell(fs *fileSchema, kind string, pos *position, goRoute boo
 		c.Count("matrix_panics", 1)
 		c.Violation(fmt.Sprintf("C20 panic %s-field %s-value %s", kind, pv.class, pos.class),
 			fmt.Sprintf("host panic: %s with v=%s (%s) in %s: %s @ %s", pos.body, driverTrunc(v.String()), pv.label, cellID, r.panic.String(), r.panic.TopFrame()),
-			detail(map[string]any{"panic": r.panic.String(), "stack": driverTrunc(r.panic.Stack)}))
+			detail(map[string]any{"panic": r.panic.String(), "stack": stackTrunc(r.panic.Stack)}))
 	case r.err != nil:
 		c.Count("matrix_op_errors", 1)
 		if verdict == vAccept && !pos.lookup {
@@ -397,6 +397,13 @@ func (e *env) matrixCell(fs *fileSchema, kind string, pos *position, goRoute boo
 		}
 	default:
 		c.Count("matrix_op_ok", 1)
+		if verdict == vReject && pos.lookup {
+			// Starlark's "in" swallows the error of Mapping.Get; the answer must then be False
+			if r.res != starlark.False {
+				c.Violation("C20 wrong-lookup "+kind, fmt.Sprintf("lookup of invalid key %s gave %v (%s)", v, r.res, cellID), detail(nil))
+			}
+			break
+		}
 		if verdict == vReject {
 			c.Violation(fmt.Sprintf("C20 wrong-accept %s %s", kind, pv.label),
 				fmt.Sprintf("out-of-range or wrong-type value accepted: %s with v=%s (%s) succeeded; message now %s", pos.body, driverTrunc(v.String()), pv.label, safeString(got)), detail(nil))
@@ -433,7 +440,7 @@ func (e *env) matrixCell(fs *fileSchema, kind string, pos *position, goRoute boo
 			switch {
 			case rp != nil:
 				c.Violation(fmt.Sprintf("C20 panic %s-field %s-value readback", kind, pv.class),
-					fmt.Sprintf("host panic reading back after %s with v=%s: %s (%s)", pos.body, driverTrunc(v.String()), rp.String(), cellID), detail(map[string]any{"stack": driverTrunc(rp.Stack)}))
+					fmt.Sprintf("host panic reading back after %s with v=%s: %s (%s)", pos.body, driverTrunc(v.String()), rp.String(), cellID), detail(map[string]any{"stack": stackTrunc(rp.Stack)}))
 			case rerr != nil:
 				c.Violation(fmt.Sprintf("C20 readback %s %s", kind, pv.label), fmt.Sprintf("read back failed: %v (%s)", rerr, cellID), detail(nil))
 			case !sameStarlark(elemDescForRead(pos, fd), rb, wantPV):
@@ -477,14 +484,20 @@ func (e *env) matrixCell(fs *fileSchema, kind string, pos *position, goRoute boo
 			if goRoute && (pos.family == "r" || pos.family == "mv" || pos.family == "mk") {
 				stale, _ = m.Attr(fname) // wrapper obtained before freezing
 			}
-			before, _ := snapshot(m)
+			before, bp := snapshot(m)
+			if bp != nil {
+				// printing/encoding the message just built panics: that is the defect, not a frozen-ness problem
+				c.Violation(fmt.Sprintf("C20 panic %s-field %s-value print", kind, pv.class),
+					fmt.Sprintf("host panic printing/encoding the message after %s with v=%s (%s): %s @ %s", pos.body, driverTrunc(v.String()), cellID, bp.String(), bp.TopFrame()), detail(map[string]any{"stack": stackTrunc(bp.Stack)}))
+				break
+			}
 			m.Freeze()
 			r2 := op(m, v1, arg1, stale)
 			after, sp := snapshot(m)
 			c.Count("matrix_frozen_retries", 1)
 			if r2.panic != nil {
 				c.Violation(fmt.Sprintf("C20 panic %s-field frozen-retry %s", kind, pos.class),
-					fmt.Sprintf("host panic operating on frozen message: %s (%s): %s", pos.body, cellID, r2.panic.String()), detail(map[string]any{"stack": driverTrunc(r2.panic.Stack)}))
+					fmt.Sprintf("host panic operating on frozen message: %s (%s): %s", pos.body, cellID, r2.panic.String()), detail(map[string]any{"stack": stackTrunc(r2.panic.Stack)}))
 			} else if sp != nil || before != after {
 				c.Violation("C20 frozen-mutated "+pos.direct,
 					fmt.Sprintf("frozen message changed by %s (v=%s): before %s, after %s, error=%v (%s)", pos.body, driverTrunc(v1.String()), showSnap(before), showSnap(after), r2.err, cellID), detail(nil))
@@ -501,7 +514,8 @@ func (e *env) matrixCell(fs *fileSchema, kind string, pos *position, goRoute boo
 				fmt.Sprintf("after %s with v=%s (%s): %s (%s)", pos.body, driverTrunc(v.String()), pv.label, problem, cellID), detail(map[string]any{"problem": problem}))
 		}
 	}
-	if c.WantSample() && verdict != vEither {
+	if c.Shard%2 == 0 && e.matrixSamples < 3 && c.WantSample() && verdict != vEither && (r.err == nil) == (e.matrixSamples%2 == 0) {
+		e.matrixSamples++
 		errs := ""
 		if r.err != nil {
 			errs = r.err.Error()
@@ -616,7 +630,7 @@ func (e *env) roundTrip(fs *fileSchema, m *sproto.Message, goRoute bool, kind, v
 		}
 		enc, err, p := e.call(e.thread, sproto.Module.Members[marshalName], m)
 		if p != nil {
-			c.Violation("C20 panic "+marshalName+" "+kind, fmt.Sprintf("host panic in proto.%s of %s: %s (%s)", marshalName, safeString(m), p.String(), where), map[string]any{"stack": driverTrunc(p.Stack)})
+			c.Violation("C20 panic "+marshalName+" "+kind, fmt.Sprintf("host panic in proto.%s of %s: %s (%s)", marshalName, safeString(m), p.String(), where), map[string]any{"stack": stackTrunc(p.Stack)})
 			continue
 		}
 		if err != nil {
@@ -655,7 +669,7 @@ func (e *env) roundTrip(fs *fileSchema, m *sproto.Message, goRoute bool, kind, v
 			m2v, err, p = e.call(e.thread, sproto.Module.Members[unmarshalName], sproto.MessageDescriptor{Desc: desc}, enc)
 		}
 		if p != nil {
-			c.Violation("C20 panic "+unmarshalName+" "+kind, fmt.Sprintf("host panic in proto.%s: %s (%s)", unmarshalName, p.String(), where), map[string]any{"stack": driverTrunc(p.Stack)})
+			c.Violation("C20 panic "+unmarshalName+" "+kind, fmt.Sprintf("host panic in proto.%s: %s (%s)", unmarshalName, p.String(), where), map[string]any{"stack": stackTrunc(p.Stack)})
 			continue
 		}
 		if err != nil {
